@@ -861,6 +861,19 @@ def _oracle_modes(self, rc, op, pre, post, real_out):
                 last_before = max([r[3] for r in pre.rows if str(r[2]) == name] + [0])
                 if last_before >= rc.cfg.target or len(old) >= rc.cfg.target and new[:len(old)] == old and len(new) > len(old):
                     self._fail('C13', f'full-written-{kind}', f'pack {name} had reached the target ({len(old)} >= {rc.cfg.target}) and was written again')
+    if kind == 'clean':
+        # cleaning = the single-key rule applied to every key: a loose file whose object is packed is removed, others stay
+        left = [k for k in post.loose_bytes if k in post_rows]
+        if left:
+            self._fail('C16', 'bulk-clean-left', f'clean_storage left {len(left)} of {len([k for k in pre.loose_bytes if k in pre_rows])} '
+                                                 f'loose files whose objects are packed (e.g. key {left[0][:10]})')
+        gone = [k for k in pre.loose_bytes if k not in pre_rows and k not in post.loose_bytes]
+        if gone:
+            self._fail('C16', 'bulk-clean-extra', f'clean_storage removed the loose file of key {gone[0][:10]}, which is not packed')
+    if kind == 'packAll':
+        left = [k for k in post.loose_bytes if k not in post_rows and (rc.name, rc.cid(k)) not in self.damaged]
+        if left:
+            self._fail('C16', 'bulk-pack-left', f'pack_all_loose left {len(left)} loose objects unpacked (e.g. key {left[0][:10]})')
     if kind == 'import':
         src = self.conts[op['src']]
         grown = sum(len(b) for b in post.pack_bytes.values()) - sum(len(b) for b in pre.pack_bytes.values())
@@ -870,6 +883,26 @@ def _oracle_modes(self, rc, op, pre, post, real_out):
         for k, r in pre_rows.items():
             if post_rows.get(k) != r:
                 self._fail('C14', 'import-touched', f'index row of key {k[:10]} changed during import')
+        same = src.cfg.hash_type == rc.cfg.hash_type
+        for k in op['ks']:
+            if not (isinstance(k, int) and k in src.expected) or (rc.name, k) in self.pre_damaged:
+                continue
+            dk = rc.key(k)
+            # every requested object that the source holds is in the destination, with its bytes
+            if dk not in post_rows and dk not in post.loose_bytes:
+                self._fail('C14', 'import-missing', f'object cid {k} ({self.pool.size(k)} bytes) was requested and is held by the source, '
+                                                    'but is not in the destination after the import')
+            elif dk in post_rows and dk not in pre_rows:
+                try:
+                    got = post.recover(dk)
+                except Exception:  # pylint: disable=broad-except
+                    got = None
+                if got != self.pool.contents[k]:
+                    self._fail('C14', 'import-bytes', f'object cid {k} was imported with bytes that are not its content')
+            # what the destination already held is not written again (same hash algorithm) / gains no second entry
+            if same and (dk in pre.loose_bytes or dk in pre_rows) and dk in post_rows and dk not in pre_rows:
+                self._fail('C14', 'import-rewritten', f'object cid {k} was already in the destination (loose) and was written to a pack again '
+                                                      'although both containers use the same hash algorithm')
 
 
 Runner._oracle_modes = _oracle_modes
